@@ -295,6 +295,9 @@ func (x *run) cacheChecks(rs *repState, final bool) {
 			}
 			if len(q.Search) > 0 {
 				x.probe("search_query_judged")
+				if len(want) > 10 {
+					x.probe("search_expected_more_than_10_hits")
+				}
 			}
 			if !eq(sortedCopy(got), want) {
 				x.violate("result-set-differs", "query %q on %s (%d bugs): got %s, the documented semantics give %s", q.Render(), rs.r.Name, len(views), sh(sortedCopy(got)), sh(want))
